@@ -75,7 +75,11 @@ def gen_case(rng, car):
     if r < 0.82:
         return Op("ODiag", [gen_tt(rng, cplx, d=rng.choice([1, 2, 3]), rmax=2)], [[0]]), "diag-embed", None
     if r < 0.90:
-        A = gen_ttm(rng, cplx, square=rng.random() < 0.7)
+        A = gen_ttm(rng, cplx, square=rng.random() < 0.5)
+        if rng.random() < 0.4:                      # tall / wide modes (m >= n + 2 and the reverse): the diagonal has min(m, n) entries
+            d_ = rng.choice([1, 2, 2]); M_ = [rng.choice([4, 5, 7]) for _ in range(d_)]; N_ = [rng.choice([1, 2, 3]) for _ in range(d_)]
+            if rng.random() < 0.3: M_, N_ = N_, M_
+            A = Lit4(ttgen.rand_ttm_cores(rng, M_, N_, ttgen.rand_ranks(rng, d_, 3), cplx))
         return Op("ODiag", [A], [[1, len(A.cores)]]), "diag-extract", None
     if r < 0.94:
         return Op("OToTTM", [gen_tt(rng, cplx)]), "to_ttm", None
